@@ -474,6 +474,7 @@ class HierOps:
             del self.ents[e.h]
             return 'accepted-dup'
         if exp == 'may':
+            self._readable_after_accept(e, site, cls)
             del self.ents[e.h]
             return 'accepted-unmodelled'
         m.raw.append(t)
@@ -545,6 +546,7 @@ class HierOps:
         if st == 'raise':
             return self._growth_failed(e, op, site, cls, tuples, r, 'accept' if exp == 'accept' else exp, fn)
         if exp == 'may':
+            self._readable_after_accept(e, site, cls)
             del self.ents[e.h]
             return 'accepted-unmodelled'
         m.raw.extend(tuples)
